@@ -134,6 +134,7 @@ def run(R):
     if "DONE" not in rout:
         R.proof_problems.append("runner did not finish: " + rout[-300:])
     stats = {}
+    alloc_cmp = {}
     for l in rout.split("\n"):
         if l.startswith("STAT "):
             _, k, v = l.split(" "); stats[k] = int(v)
@@ -152,6 +153,19 @@ def run(R):
                              dict(trace_line=src[:6000], package=pk["dir"], model=mname, segments=f[5]))
         elif l.startswith("BADLINE"):
             R.proof_problems.append("runner could not parse: " + l[:200])
+        elif l.startswith("ALLOC "):
+            # the model's allocation bound (Alloc.decode_alloc, proved linear) against the measured allocation of this call
+            _, ln, a = l.split(" ")
+            src = lines[int(ln) - 1]
+            m = re.search(r"alloc=(\d+);len=(\d+)", src)
+            if m:
+                excess = int(m.group(1)) - int(a)
+                b = "<=0" if excess <= 0 else ("<=4KiB" if excess <= 4096 else ("<=64KiB" if excess <= 65536 else ">64KiB"))
+                alloc_cmp[b] = alloc_cmp.get(b, 0) + 1
+                if excess > 65536:
+                    R.divergence("allocation: the implementation allocated %s bytes, the model's bound decode_alloc gives %s (input %s bytes)" % (m.group(1), a, m.group(2)),
+                                 dict(trace_line=src[:6000], model_bound=a))
+    R.coverage.setdefault("distribution", {})
     # ---- hand-written decoders: crash oracle only ----
     hstats = {}
     for l in hr:
@@ -192,6 +206,7 @@ def run(R):
         if len(inp) >= 8 and tag != "valid":
             distinct.add(cc.sha(" ".join(f[:6] if f[0] == "D" else f[:4])))
     R.coverage["distribution"] = dict(mutation_kinds=kinds, runner=stats, handwritten=hstats, alloc_excess_per_input_byte=hist,
+                                      measured_alloc_minus_model_bound=alloc_cmp,
                                       alloc_worst=worst[1], hard_failures=len(failures), corpus_cases=ncorpus)
     R.coverage["rule"] = ("one evaluation = one decoder call on the real code in the supervised child (generated Parse of a model, or ReadPacket/ReadData/ReadInterest/"
                           "NameFromBytes/ReadName/ComponentFromBytes/ParseNat) with BufferReader or WireReader (adversarial segmentation: empty segments, cuts inside headers, "
